@@ -2161,6 +2161,14 @@ def ctor_repro(case):
     )
 
 
+def _layers(c, part):
+    which, na = part
+    if which == "life":
+        _life_part(c, (KINDS, na))
+    else:
+        _ctor_layer(c, na)
+
+
 # =================================================================================================
 def run(ctx):
     thorough = ctx.thorough
@@ -2224,8 +2232,10 @@ def run(ctx):
     # ---- the view is the only thing kept ; constructor sources x keyword arrays --------------------
     t1 = ctx.transitions
     nas = [2, 1, 3] if thorough else [2]
-    ctx.pmap(_life_part, [([k], na) for na in nas for k in KINDS])
-    ctx.pmap(_ctor_layer, nas)
+    # few and cheap: one part per layer and atom count, kinds in a fixed order (the kept counterexample
+    # of a signature is then always the same)
+    for na in nas:
+        ctx.pmap(_layers, [("life", na), ("ctor", na)])
     ctx.bound["lifetime_layer"] = {"constructors": len(KINDS), "ways_to_keep_only_the_view": LIFE_HOW, "after_growth": [False, True], "n_atoms": nas}
     ctx.bound["constructor_layer"] = {"sources": CTOR_SOURCES, "n_conformers": ["default", 2, 3], "keyword_arrays": "every subset of coords/atomic_charges/weights", "forms": ["full", "one row / scalar", "(1, ...)"], "n_atoms": nas}
     ctx.note("lifetime_and_constructor_layer_transitions", ctx.transitions - t1)
